@@ -160,9 +160,52 @@ def need_vet(S):
         S["vet"] = S["E"].vet()
     return S["vet"]
 
+def excise_broken(S):
+    """when some generated functions do not compile, cut them out of the *_band.go files so that the others can still be
+    run (the compile errors themselves are C04's business and are reported there with the declaration)"""
+    E = S["E"]
+    rc, errs, raw = compile_errors(E)
+    broken = set()
+    for e in errs:
+        if e["file"].endswith("_band.go"):
+            nm = find_injector_at(E, e["file"], e["line"])
+            if nm:
+                broken.add((e["file"], nm))
+    if not broken:
+        return set()
+    for f in set(f for f, _ in broken):
+        path = os.path.join(E.M.root, f)
+        txt = open(path).read()
+        for _, nm in [b for b in broken if b[0] == f]:
+            txt = re.sub(r"(?ms)^func %s\(.*?^}\n" % re.escape(nm), "", txt)
+        open(path, "w").write(txt)
+    names = set(nm for _, nm in broken)
+    E.M.names = [n for n in E.M.names if n not in names]
+    # imports that only the removed functions used would now be unused: let goimports-like pruning be done by the compiler
+    # errors of a second pass (unused imports are removed textually)
+    for _ in range(3):
+        rc2, errs2, raw2 = compile_errors(E)
+        unused = [e for e in errs2 if "imported and not used" in e["msg"] and e["file"].endswith("_band.go")]
+        if not unused:
+            break
+        for e in unused:
+            path = os.path.join(E.M.root, e["file"])
+            lines = open(path).read().split("\n")
+            if 0 < e["line"] <= len(lines):
+                lines[e["line"] - 1] = ""
+            open(path, "w").write("\n".join(lines))
+    return names
+
 def need_runner(S):
+    if "runner" not in S:
+        # only functions that were really generated can be registered and run
+        S["E"].M.names = [n for n in S["E"].M.names if n in S["extract"]]
     need_vet(S)
     if "runner" not in S:
+        if S["vet"][0] != 0:
+            S["excised"] = excise_broken(S)
+            if S["excised"]:
+                S["vet"] = S["E"].vet()
         S["runner"] = S["E"].build_runner() if S["vet"][0] == 0 else (1, "not built: package does not type-check:\n" + S["vet"][1][-600:])
     return S["runner"]
 
@@ -361,6 +404,8 @@ def build_specs(S, tier, rng, fault_free_only=False):
     failing alone, cancellation before the call and at provider events"""
     specs = []
     for k, line in S["ok"]:
+        if "Init%d" % k in S.get("excised", ()) or "Init%d" % k not in S["extract"]:
+            continue
         E = PC.parse_edump(S["model"][k])
         ret, provs = G.parse_decl(line)
         sup = PC.suppliers(ret, provs)
@@ -804,6 +849,43 @@ def emission_obligation(R, tier, seed):
              not diffs and not bad_gen, "%d differ, %d invocations failed; first: %s" % (len(diffs), len(bad_gen), [d[1:] for d in diffs[:1]] or [b[1][-200:] for b in bad_gen[:1]]))
     R.coverage["end_to_end_declarations"] = len(S["ok"])
     return S, diffs
+
+def pinpoint_refusal(R, S, seed, prop):
+    """an invocation of the real CLI failed although the model accepts every declaration in it: find one declaration that
+    is refused on its own (rendered exactly as in the sample) and report it as the failing input"""
+    bad_gen = [(rc, out, fs) for rc, out, fs in S["gen"] if rc != 0]
+    if not bad_gen:
+        return False
+    from . import render as RD
+    missing = [(k, l) for k, l in S["ok"] if "Init%d" % k not in S["extract"]]
+    E = S["E"]
+    M = RD.Module("pin%d" % seed)
+    try:
+        for k, l in sorted(missing, key=lambda kl: len(kl[1]))[:60]:
+            # same rendering as in the sample (the per-declaration choices of aliases / Value / Set nesting are seeded)
+            src = None
+            for f in E.M.files:
+                txt = open(f).read()
+                m = re.search(r"(?ms)^type D%dT\d+ .*?^var _ = kessoku\.Inject\[[^\n]*\(\"Init%d\",.*?^\)\n" % (k, k), txt)
+                if m:
+                    src = m.group(0)
+                    break
+            if src is None:
+                continue
+            d = os.path.join(M.root, "q%d" % k)
+            os.makedirs(d, exist_ok=True)
+            body = 'package q%d\n\nimport (\n\t"context"\n\t"e2e/rt"\n\t"github.com/mazrean/kessoku"\n)\n\nvar _ context.Context\nvar _ = rt.Enter\n\n%s' % (k, src)
+            open(os.path.join(d, "k.go"), "w").write(body)
+            rc, out = C.run([E.cli, "q%d/k.go" % k], cwd=M.root, extra_env=M.env(), timeout=300)
+            if rc != 0:
+                msg = (out.strip().splitlines() or ["?"])[-1][:300]
+                R.violation("a declaration the model accepts (no cycle, no duplicate supplier, no orphan Struct) is refused by the generator: %s  [declaration: %s]" % (msg, l),
+                            {"kind": "input", "failing_input": {"declaration": l, "source": body}, "observed": out[-1200:], "expected": "exit 0 and one generated function",
+                             "reproduce": "save failing_input.source as k.go of a package (module with github.com/mazrean/kessoku and the rt helper package), run `kessoku k.go`"})
+                return True
+    finally:
+        M.close()
+    return False
 
 def names_e2e(R, repo_dir, tier, seed):
     """C12 end to end: pre-registration of package-level names happens in the parser, so it is only visible through
